@@ -239,7 +239,7 @@ def special_text(n, emit_child):
     if k in ('xref', 'ref'):
         return '!' + k + sfx, json.dumps(n['path'])
     if k == 'prev':
-        return '!prev', json.dumps(n['path'])
+        return '!prev', (n['path'] if n.get('plain') else json.dumps(n['path']))
     if k in ('append', 'extend'):
         return '!' + k + (sfx if k == 'extend' else ''), emit_child(n['args'])
     if k in ('call', 'bind'):
